@@ -106,6 +106,11 @@ func Run(r *core.Run) {
 	for vi, v := range []string{`[]`, `{}`, `""`, `null`, `0`, `false`, `[[]]`, `{"inner":[]}`, `{"name":"alice","nickname":null}`, `["x",null,"y"]`, `{"a":{"b":{"c":null,"d":[null]}}}`, `[null]`} {
 		docs = append(docs, `{"publicKey":[`+k[0]+`],"service":[`+s[0]+`],"alsoKnownAs":[`+a[0]+`],"tags":`+v+`,"scalar":"v"}`, `{"empty`+fmt.Sprint(vi)+`":`+v+`}`, `{"publicKey":[`+k[0]+`],"a":`+v+`,"z":`+v+`}`)
 	}
+	// service endpoints that are absolute URIs without an authority (a scheme and a rooted path, an empty authority) or opaque
+	for ei, ep := range []string{`"dweb:/ipfs/bafybeigdyrzt5/hub"`, `"file:///srv/agent/inbox"`, `"unix:/run/agent/didcomm.sock"`, `"did:example:mediator"`, `"urn:uuid:6e8bc430-9c3a-11d9-9669-0800200c9a66"`, `"mailto:agent@example.com"`,
+		`["dweb:/ipfs/x","https://a.example/"]`, `{"uri":"file:///x","accept":["didcomm/v2"]}`} {
+		docs = append(docs, `{"publicKey":[`+k[0]+`],"service":[{"id":"e`+fmt.Sprint(ei)+`","type":"T","serviceEndpoint":`+ep+`}]}`)
+	}
 	// documents without keys as well
 	docs = append(docs, `{"service":[`+s[0]+`]}`, `{"alsoKnownAs":[`+a[0]+`]}`, `{"scalar":"v"}`, `{}`)
 	r.Extra["documents"] = len(docs)
